@@ -815,20 +815,22 @@ impl Check for StopCheck {
                 match &rep.stop_reason {
                     StopReason::Saturated => {}
                     StopReason::IterationLimit => {
-                        if rep.iterations < iter_limit {
-                            out.violations.push(v("stop_reason_true", format!("IterationLimit after {} iterations, limit {iter_limit}", rep.iterations)));
+                        // the limit is checked against the number of completed iterations before
+                        // the current one: it must really be exceeded
+                        if rep.iterations < 1 || rep.iterations - 1 <= iter_limit {
+                            out.violations.push(v("stop_reason_true", format!("IterationLimit after {} iterations, limit {iter_limit} not exceeded", rep.iterations)));
                             return out;
                         }
                     }
                     StopReason::NodeLimit => {
-                        if nodes < node_limit {
-                            out.violations.push(v("stop_reason_true", format!("NodeLimit with {nodes} nodes, limit {node_limit}")));
+                        if nodes <= node_limit {
+                            out.violations.push(v("stop_reason_true", format!("NodeLimit with {nodes} nodes, limit {node_limit} not exceeded")));
                             return out;
                         }
                     }
                     StopReason::TimeLimit => {
-                        if elapsed_ns < time_limit_ms * ms {
-                            out.violations.push(v("stop_reason_true", format!("TimeLimit but only {elapsed_ns}ns of simulated time elapsed, limit {time_limit_ms}ms")));
+                        if elapsed_ns <= time_limit_ms * ms {
+                            out.violations.push(v("stop_reason_true", format!("TimeLimit but only {elapsed_ns}ns of simulated time elapsed, limit {time_limit_ms}ms not exceeded")));
                             return out;
                         }
                         out.bump("K6_clock_crossed_limit");
